@@ -115,10 +115,10 @@ PROPS = {
         level_text=LT, level_note=LN, assumptions=[],
     ),
     "C11": dict(
-        imports="Cache.Cache", check="C10_check", ctype="C10_case",
+        imports="Cache.Cache Cache.CacheConc", check="C10_check", ctype="C10_case",
         show="let '(src, retained, can_remove, ops, _, _) := c in cruns src (fun n => mem_str n retained) 512 can_remove cinit ops", n=dict(quick=400, thorough=4000), chunk=100,
         rule="for files of 0..5000 bytes at depth 1..3 and both cache store kinds: a fault at every source read index and at every cache-store call (mkdir, create, each write with a partial write, close) of the fill, "
-             "then three fault-free re-opens; plus 2..4 concurrent first opens with the copy paused at chunk boundaries (simultaneous copies counted); distinct = distinct (size, store, fault) cell",
+             "then three fault-free re-opens; plus 2..4 concurrent first opens with the copy paused at chunk boundaries (simultaneous copies counted; the store calls the real cache made are replayed through the interleaving model) and a failing fill while a second opener waits; distinct = distinct (size, store, fault) cell",
         level_text=LT, level_note=LN, assumptions=[],
     ),
     "C12": dict(
